@@ -403,7 +403,7 @@ def sorted_list(eng, v, n, st, key=None):
 
     def keyof(t):
         if keyf is None:
-            if isinstance(ty.elt, IntT):
+            if isinstance(ty.elt, (IntT, StrT)):
                 return t
             raise Unsupported("sorted() of non-int list without key")
         if isinstance(keyf, ast.Lambda):
@@ -433,6 +433,11 @@ def sorted_list(eng, v, n, st, key=None):
             # keys involving identity strings: the string order is not modelled; only the permutation part of the contract is used
             eng.assumptions_used.add("sort key with a string component: only 'the result is a permutation' is used (order not modelled)")
             return res
+    elif keyf is None and isinstance(ty.elt, StrT):
+        # plain sorted() of strings: python's string order as the uninterpreted strict total order str_lt on identity codes
+        lt = eng.uf("str_lt", [STR, STR], BOOL)
+        eng.assumptions_used.add("assumed: sorted(list of str) is ordered by python's (lexicographic) string order str_lt (uninterpreted)")
+        le = z3.Or(ka == kb, lt(ka, kb))
     else:
         le = ka <= kb
     st.assume(z3.ForAll([a, b], z3.Implies(z3.And(0 <= a, a < b, b < L), le)))
@@ -628,7 +633,20 @@ def b_last_keypos(eng, n, st):
     return v
 
 
+def b_keypos_n(eng, n, st):
+    """keypos_n(k): position map of the k-th ghost enumeration (set / dict iteration order) made so far in this function"""
+    k = n.args[0].value
+    return eng.key_orders[k][1]
+
+
+def b_keyseq_n(eng, n, st):
+    """keyseq_n(k): the k-th ghost enumeration itself (a list of distinct members covering the set)"""
+    k = n.args[0].value
+    return eng.key_orders[k][0]
+
+
 BUILTINS = {
+    "keypos_n": b_keypos_n, "keyseq_n": b_keyseq_n,
     "last_keypos": b_last_keypos,
     "assign_members": b_assign_members,
     "cache_positions": b_cache_positions,
@@ -911,6 +929,12 @@ def m_str_rstrip(eng, recv, n, st):
     return Val(eng.uf("rstrip", [STR], STR)(recv.t), STR)
 
 
+def m_str_strip(eng, recv, n, st):
+    if n.args:
+        raise Unsupported("strip with arguments at line %s" % n.lineno)
+    return Val(eng.uf("strip", [STR], STR)(recv.t), STR)
+
+
 def m_str_replace(eng, recv, n, st):
     a = eng.ev(n.args[0], st)
     b = eng.ev(n.args[1], st)
@@ -995,7 +1019,7 @@ def m_linesink_write(eng, recv, n, st):
 
 METHODS = {
     ("ObjT", "write"): m_linesink_write,
-    ("ListT", "write"): m_sink_write, ("ListT", "put"): m_sink_write, ("ListT", "tell"): m_sink_tell, ("StrT", "rstrip"): m_str_rstrip, ("StrT", "isdigit"): m_str_isdigit, ("StrT", "replace"): m_str_replace,
+    ("ListT", "write"): m_sink_write, ("ListT", "put"): m_sink_write, ("ListT", "tell"): m_sink_tell, ("StrT", "rstrip"): m_str_rstrip, ("StrT", "strip"): m_str_strip, ("StrT", "isdigit"): m_str_isdigit, ("StrT", "replace"): m_str_replace,
     ("StrT", "decode"): m_str_decode, ("StrT", "split"): m_str_split_tab,
     ("StrT", "startswith"): b_startswith,
     ("ListT", "pop"): m_list_pop, ("ListT", "remove"): m_list_remove,
@@ -1247,6 +1271,9 @@ def key_order(eng, has, kty, st, ordered_keys=None):
     L = lty.len(seq.t)
     st.assume(L >= 0)
     st.assume(L == card_of(eng, has, kty))
+    if not hasattr(eng, "key_orders"):
+        eng.key_orders = []
+    eng.key_orders.append((seq, Val(pos, MapT(kty, INT))))
     st.assume(z3.ForAll([i], z3.Implies(z3.And(0 <= i, i < L), z3.And(z3.Select(has, z3.Select(lty.arr(seq.t), i)), pos[z3.Select(lty.arr(seq.t), i)] == i))))
     st.assume(z3.ForAll([k], z3.Implies(z3.Select(has, k), z3.And(0 <= pos[k], pos[k] < L, z3.Select(lty.arr(seq.t), pos[k]) == k))))
     return seq, pos
